@@ -4,6 +4,7 @@
    timer slot; Handshake::ack; the connect timeout; the client keep-alive loop).
    All statements are for ALL event sequences satisfying the stated hypotheses. *)
 From MV Require Import Base.Prelude Base.Res Model.Timer Proofs.TimerProofs.
+From MV Require Model.Handshake.
 
 (* a connection on which fewer than keep-alive seconds ever pass between complete frames -- whatever
    partial reads, timer expiries, read-rate configuration -- is never ended with KeepAliveTimeout,
@@ -133,6 +134,13 @@ Theorem C20_keepalive_factor : forall (ka : N),
   ka <= U16MAX -> ack_keepalive ka = if ka =? 0 then 30 else N.min (ka + ka / 2) 65535.
 Proof. exact keepalive_factor. Qed.
 Print Assumptions C20_keepalive_factor.
+
+(* the same function as Model/Handshake.v's keepalive_of, which engine "hs" compares with the real
+   Handshake::ack of both protocol versions *)
+Theorem C20_keepalive_factor_is_handshake_model : forall (ka : N),
+  ack_keepalive ka = Handshake.keepalive_of ka.
+Proof. exact ack_keepalive_is_handshake_model. Qed.
+Print Assumptions C20_keepalive_factor_is_handshake_model.
 
 (* connect timeout: ct <> 0 and no CONNECT within ct seconds => dropped; a CONNECT before that, or
    ct = 0, => accepted *)
